@@ -1,7 +1,7 @@
 """progen.py — generators of well-formed programs over a small name alphabet (C04, C08, C09, C10, C19):
 the same name is at once a caller datum, an assigned variable, a loop variable, a counter and a partial argument."""
 import itertools, random
-from props.tpl import lit, var, I, Sx
+from props.tpl import lit, var, I, Sx, elsif
 
 NAMES = ["a", "b", "c"]
 DATA = [["a", ["s", "dA"]], ["b", ["a", [["i", "1"], ["i", "2"]]]], ["arr", ["a", [["s", "x"], ["s", "y"]]]]]
@@ -21,7 +21,7 @@ def reads_all():
 
 class Gen:
     def __init__(self, rnd, partial_names=(), allow=("assign", "capture", "inc", "dec", "for", "if", "include", "read", "text"), names=NAMES):
-        self.rnd, self.partials, self.allow, self.names, self.k = rnd, list(partial_names), set(allow), names, 0
+        self.rnd, self.partials, self.allow, self.names, self.k = rnd, list(partial_names), set(allow) | {"case", "comment", "raw"}, names, 0
 
     def fresh(self):
         self.k += 1
@@ -37,7 +37,7 @@ class Gen:
 
     def stmt(self, depth, in_loop):
         r = self.rnd
-        kinds = [k for k in self.allow if not (k in ("for", "capture", "if", "ifchanged", "tablerow") and depth <= 0)]
+        kinds = [k for k in self.allow if not (k in ("for", "capture", "if", "ifchanged", "tablerow", "case") and depth <= 0)]
         if not in_loop:
             kinds = [k for k in kinds if k not in ("break", "continue")]
         if not self.partials:
@@ -50,7 +50,16 @@ class Gen:
             return read(x)
         if k == "assign":
             e = self.expr()
-            return [("assign", x, (e, []))]
+            fs = [] if r.random() < 0.75 else [r.choice([("append", [Sx("+")]), ("prepend", [var(r.choice(self.names))]), ("size", []), ("default", [Sx("d")]), ("plus", [I(1)]), ("first", []), ("join", [Sx("/")])])]
+            return [("assign", x, (e, fs))]
+        if k == "comment":
+            return [("comment", r.choice(["note", "{{ a }}", "{% assign a = 'zz' %}{% increment b %}", " {{ nope.x }} ", "{% if a %}{% assign c = 'zz' %}{% endif %}"]))]
+        if k == "raw":
+            return [("raw", r.choice(["{{ a }}", "{% assign a = 'zz' %}", "r", " {%- x -%} "]))]
+        if k == "case":
+            vals = lambda: [r.choice([Sx("dA"), I(1), I(2), var(r.choice(self.names)), lit(["n"]), Sx("v1")]) for _ in range(r.randint(1, 2))]
+            arms = [(vals(), self.body(depth - 1, in_loop, 2)) for _ in range(r.randint(1, 3))]
+            return [("case", r.choice([var(x), I(1), var("nope")]), arms, self.body(depth - 1, in_loop, 1) if r.random() < 0.5 else None)]
         if k == "capture":
             return [("capture", x, self.body(depth - 1, in_loop, 2))]
         if k == "inc":
@@ -64,12 +73,17 @@ class Gen:
                 rng = ("arr", var("arr"))
             els = self.body(depth - 1, in_loop, 1) if r.random() < 0.3 else None
             lim = I(r.randint(0, 3)) if r.random() < 0.2 else None
-            return [("for", x, rng, lim, None, r.random() < 0.2, self.body(depth - 1, True, 3), els)]
+            off = I(r.randint(0, 2)) if r.random() < 0.2 else None
+            return [("for", x, rng, lim, off, r.random() < 0.2, self.body(depth - 1, True, 3), els)]
         if k == "tablerow":
             return [("tablerow", x, ("arr", var("arr")), I(r.randint(1, 2)) if r.random() < 0.5 else None, None, None, self.body(depth - 1, in_loop, 2))]
         if k == "if":
             c = r.choice([("ex", var(x)), ("bin", var(x), "==", Sx("dA")), ("ex", var("nope"))])
-            return [("if", r.random() < 0.8, c, self.body(depth - 1, in_loop, 2), self.body(depth - 1, in_loop, 1) if r.random() < 0.5 else None)]
+            els = self.body(depth - 1, in_loop, 1) if r.random() < 0.5 else None
+            mode = r.random() < 0.8
+            if mode and r.random() < 0.3:
+                els = [elsif(r.choice([("ex", var(r.choice(self.names))), ("bin", var(x), "!=", Sx("dA")), ("ex", lit(["b", True]))]), self.body(depth - 1, in_loop, 1), els)]
+            return [("if", mode, c, self.body(depth - 1, in_loop, 2), els)]
         if k == "ifchanged":
             return [("ifchanged", self.body(depth - 1, in_loop, 2))]
         if k == "cycle":
